@@ -4,6 +4,7 @@ import (
 	"bytes"
 	"strconv"
 	"strings"
+	"unicode/utf8"
 )
 
 type grammarOptimizer struct {
@@ -201,7 +202,10 @@ func (r *grammarOptimizer) optimize(expr0 Expression) Visitor {
 			if i > 0 {
 				l0, ok0 := expr.Exprs[i-1].(*LitMatcher)
 				l1, ok1 := expr.Exprs[i].(*LitMatcher)
-				if ok0 && ok1 && l0.IgnoreCase == l1.IgnoreCase {
+				// (literals are matched rune by rune: two values that are not UTF-8 by
+				// themselves - "\xe2" "\x82" "\xac" - must not be joined into other runes)
+				if ok0 && ok1 && l0.IgnoreCase == l1.IgnoreCase &&
+					utf8.ValidString(l0.Val) && utf8.ValidString(l1.Val) {
 					r.optimized = true
 					l0.Val += l1.Val
 					expr.Exprs[i-1] = l0
